@@ -48,7 +48,15 @@ RULE = ("exhaustive: every DAG on <=3 (quick) / <=4 (thorough) labelled nodes x 
         "state order, a LATER invalid entry after a valid one, malformed explicit orders): ValueError iff "
         "Model.query_rejects <> 0, engine and arguments untouched, later answers checked; L insertion order of nodes, "
         "edges and CPDs, parent order, evidence and virtual-evidence order, explicit orders, hash seeds; M budget: the "
-        "streams are shuffled by tools/check.py")
+        "streams are shuffled by tools/check.py; N every name and state handed to a query is an equal but NOT identical "
+        "object (rebuilt str/tuple/int, integer names > 256); O variables as list or tuple (set via predict_probability), "
+        "explicit orders as list or tuple, evidence None/{} , virtual_evidence None/[] - query documents lists and a "
+        "dict only, generators / ndarrays / pandas Index are not documented there; P 9-12 node chains, trees and "
+        "polytrees, 17 nodes, a variable with 257 states; Q CPDs typed with three decimals (column sums within 0.005 of 1): "
+        "off-normalised ROOT priors are compared with the brute-force posterior (pruned = unpruned), off-normalised "
+        "non-root columns with the model only, which prunes barren nodes exactly as the code does (the unpruned CPD "
+        "product differs there by the size of the input's own rounding); R virtual evidence x joint=False x every "
+        "order, evidence on a root x virtual evidence, torch x virtual evidence, sessions x non-uniform priors")
 TRUSTED_BASE = ["numpy/opt_einsum contraction and DiscreteFactor array primitives are modelled by their documented "
                 "pointwise meaning (Base/RefFactor)",
                 "python set/dict iteration order is the explicit parameter `ord` of the model; results compared as "
@@ -958,21 +966,11 @@ def clone(x):
 
 
 def order_container(parg, rng, tags):
-    """an explicit elimination order is 'list (array-like)': list, tuple, object ndarray, pandas Index"""
-    if not isinstance(parg, list) or not parg or not all(isinstance(x, str) for x in parg):
+    """query documents elimination_order as 'str or list': a list or (equal content) a tuple; ndarray / pandas Index are
+    not documented for query and make `elimination_order == "greedy"` ambiguous in the unchanged code, so not passed"""
+    if not isinstance(parg, list) or not parg:
         return parg
-    k = rng.choice(["list", "list", "tuple", "ndarray", "index"])
-    if k == "tuple":
-        return tuple(parg)
-    if k == "ndarray":
-        import numpy as np
-        tags.append("order as ndarray")
-        return np.array(parg, dtype=object)
-    if k == "index":
-        import pandas as pd
-        tags.append("order as pandas Index")
-        return pd.Index(parg, dtype=object)
-    return parg
+    return tuple(parg) if rng.random() < 0.3 else parg
 
 
 def snapshot_args(vars_arg, ev_arg, virt_arg, order_arg):
@@ -1061,7 +1059,7 @@ def one_query(case, drv, m, nn, sn, Q, E, vev, eo, joint, rng, tags, engine=None
     vev_model = [[v, n + k, [Fraction(a, b) for a, b in vals]] for k, (v, vals) in enumerate(vev)]
     vev_spec = [[v, [Fraction(a, b) for a, b in vals]] for v, vals in vev]
     ckey = None if case.get("_live") else repr((Q, E, vev))
-    cache = case.setdefault("_spec", {}) if ckey is not None else {}
+    cache = _SPEC_CACHE if ckey is not None else {}
     if ckey not in cache:
         cache[ckey] = spec_tables(drv, wire, Q, E, vev_spec, cards, sn)
     pe, sjoint, sper = cache[ckey]
@@ -1172,7 +1170,11 @@ def run_queries(case, drv, m, nn, sn, Q, E, vev, configs, rng, tags):
     return None, nt
 
 
+_SPEC_CACHE = {}
+
+
 def run_case(case, drv):
+    _SPEC_CACHE.clear()
     kind = case["kind"]
     m, nn, sn = build(case)
     tags = ["kind=" + kind, "n=%d" % case["n"], "nodes=%s states=%s" % (case["nstyle"], case["sstyle"]),
